@@ -66,6 +66,9 @@ def run(ctx):
     for k, s_ in enumerate(stim):
         if k % 2 == 1:
             s_["reqs"] = REQS2
+    for k, s_ in enumerate(stim):
+        s_["big"] = k % 3 == 2        # every third history: the reply is the first block of a block-wise response
+    ctx.cov["histories_with_blockwise_replies"] = sum(1 for s_ in stim if s_["big"])
     ctx.cov["histories_with_other_methods"] = sum(1 for s_ in stim if s_["reqs"] is REQS2)
     spath = os.path.join(ctx.work, "stimuli.ndjson")
     vf.write_ndjson(spath, stim)
